@@ -69,6 +69,7 @@ type c11Hook struct {
 	Pre  []c11Op `json:"pre,omitempty"`
 	Fail int     `json:"fail,omitempty"` // 0 ok, 1 ErrNotFound, 2 ErrAccessDenied, 3 other error
 	Full bool    `json:"full,omitempty"` // answer with the value even if the version is unchanged
+	CA   int     `json:"cancel_after,omitempty"` // k+1: caller k's context ends right AFTER this request was answered (before the next is issued)
 }
 
 // ---------------------------------------------------------------- scripted service
@@ -82,6 +83,8 @@ type c11Sec struct {
 type c11Pending struct {
 	name string
 	old  uint32
+	ctx  context.Context // the context the request was made on
+	late bool            // the answer had arrived before the context ended: deliver it
 	rel  chan c11Answer
 }
 
@@ -160,15 +163,16 @@ func (s *c11Svc) GetIfChanged(ctx context.Context, name string, old api.SecretVe
 		s.mu.Unlock()
 		return nil, api.ErrValueNotChanged
 	}
-	p := &c11Pending{name: name, old: uint32(old), rel: make(chan c11Answer, 1)}
+	p := &c11Pending{name: name, old: uint32(old), ctx: ctx, rel: make(chan c11Answer, 1)}
 	s.pend = append(s.pend, p)
 	s.mu.Unlock()
-	select {
-	case a := <-p.rel:
-		return a.sv, a.err
-	case <-ctx.Done():
-		return nil, ctx.Err()
+	// Every request is held until the driver releases it (the driver always does); a request whose
+	// context has ended by then fails with that context's error, whatever the service would say.
+	a := <-p.rel
+	if err := ctx.Err(); err != nil && !p.late {
+		return nil, err
 	}
+	return a.sv, a.err
 }
 
 func (s *c11Svc) takePending() *c11Pending {
@@ -233,7 +237,7 @@ type c11Run struct {
 	obs     []string // human-readable trace
 	direct  string   // runtime violation, if any
 	// statistics for the non-triviality rule
-	pollsOK, pollsFail, installs, midChanges, joins, failsInj int
+	pollsOK, pollsFail, installs, midChanges, joins, failsInj, cancels int
 	// self-test material: index into steps of a step whose observation can be altered
 	altIdx int
 	altTo  string
@@ -372,82 +376,105 @@ func (r *c11Run) storeOp(op c11Op) {
 	}
 }
 
+// c11Caller is one caller of Refresh taking part in a poll (callers are numbered in order of
+// arrival, 0 = the leader; the ticker loop's own call cannot be cancelled).
+type c11Caller struct {
+	tick   bool
+	ch     chan error
+	cancel context.CancelFunc
+	done   bool // its result has been observed
+}
+
+func (r *c11Run) newCaller() *c11Caller {
+	ctx, cancel := context.WithCancel(context.Background())
+	c := &c11Caller{ch: make(chan error, 1), cancel: cancel}
+	go func() { c.ch <- r.st.Refresh(ctx) }()
+	return c
+}
+
+// c11Class: what a Refresh caller got: nil, its own context's error, or the poll's error.
+func c11Class(err error) string {
+	switch {
+	case err == nil:
+		return "os true"
+	case err == context.Canceled || err == context.DeadlineExceeded: // ctx.Err() itself, not wrapped
+		return "oc"
+	default:
+		return "os false"
+	}
+}
+
 // poll runs one Refresh (explicit, or through the ticker loop) with every request stepped.
 func (r *c11Run) poll(op c11Op) {
 	bg := op.K == "tick"
-	type res struct{ err error }
-	leader := make(chan res, 1)
-	var joiners []chan res
-	tickJoins := 0
+	var callers []*c11Caller
 	r.emit(true, fmt.Sprintf("R %d", time.Now().UnixNano()), nil)
 	if bg {
 		r.tick.ch <- time.Now()
+		callers = append(callers, &c11Caller{tick: true})
 	} else {
-		go func() { leader <- res{r.st.Refresh(context.Background())} }()
+		callers = append(callers, r.newCaller())
 	}
-	var leaderRes *res
+	hasTick := bg
 	pos := 0
 	for guard := 0; guard < 200; guard++ {
 		synctest.Wait()
-		if leaderRes == nil {
-			if bg {
-				select {
-				case <-r.tick.done:
-					leaderRes = &res{}
-				default:
-				}
-			} else {
-				select {
-				case x := <-leader:
-					leaderRes = &x
-				default:
-				}
-			}
-		}
 		p := r.svc.takePending()
 		if p == nil {
-			if leaderRes != nil {
-				break
-			}
-			r.direct = "poll neither finished nor waiting for a request"
-			return
+			break // the flight is over (or stuck, which the collection below turns into a verdict)
 		}
 		var hook c11Hook
 		if pos < len(op.Hooks) {
 			hook = op.Hooks[pos]
 		}
 		pos++
-		if leaderRes == nil { // interleaved activity only while the poll is really in flight
-			for _, pre := range hook.Pre {
-				switch pre.K {
-				case "srv":
-					r.srvOp(pre, true)
-				case "secret", "read", "lookup":
-					r.storeOp(pre)
-				case "join":
-					ch := make(chan res, 1)
-					joiners = append(joiners, ch)
+		for _, pre := range hook.Pre {
+			switch pre.K {
+			case "srv":
+				r.srvOp(pre, true)
+			case "secret", "read", "lookup":
+				r.storeOp(pre)
+			case "join":
+				r.emit(true, fmt.Sprintf("R %d", time.Now().UnixNano()), nil)
+				callers = append(callers, r.newCaller())
+				synctest.Wait()
+				r.joins++
+			case "jointick":
+				if !hasTick {
+					hasTick = true
 					r.emit(true, fmt.Sprintf("R %d", time.Now().UnixNano()), nil)
-					go func() { ch <- res{r.st.Refresh(context.Background())} }()
+					r.tick.ch <- time.Now() // the loop is idle in its select: received at once
+					callers = append(callers, &c11Caller{tick: true})
 					synctest.Wait()
 					r.joins++
-				case "jointick":
-					if !bg && tickJoins == 0 {
-						tickJoins++
-						r.emit(true, fmt.Sprintf("R %d", time.Now().UnixNano()), nil)
-						r.tick.ch <- time.Now() // the loop is idle in its select: received at once
-						synctest.Wait()
-						r.joins++
-					}
 				}
+			case "cancel": // the context of caller N ends now, while this request is held
+				if pre.N >= len(callers) || callers[pre.N].tick || callers[pre.N].done {
+					continue
+				}
+				c := callers[pre.N]
+				c.cancel()
+				synctest.Wait()
+				var obs []string
+				select {
+				case err := <-c.ch:
+					c.done = true
+					obs = append(obs, c11Class(err))
+				default: // still blocked although its context ended
+				}
+				r.cancels++
+				r.emit(true, fmt.Sprintf("C %d", pre.N), append(r.writes(), obs...))
 			}
 		}
-		// the service answers now
+		// the service answers now - unless the context the request was made on has ended: then the
+		// client returns that context's error
+		dead := p.ctx.Err() != nil
 		r.svc.mu.Lock()
 		v, tok, present := r.svc.activeOf(p.name)
 		var ans c11Answer
 		respT := "re"
 		switch {
+		case dead:
 		case hook.Fail == 1:
 			ans.err = api.ErrNotFound
 		case hook.Fail == 2:
@@ -469,51 +496,81 @@ func (r *c11Run) poll(op c11Op) {
 		}
 		r.emit(true, fmt.Sprintf("Q %s %s %s", coqBytes([]byte(p.name)), coqBool(hook.Fail != 0), coqBool(hook.Full)),
 			append(r.writes(), fmt.Sprintf("oq (Some %d) %s", p.old, respT)))
+		var late *c11Caller
+		if k := hook.CA - 1; k >= 0 && k < len(callers) && !callers[k].tick && !callers[k].done && !dead {
+			// the context ends just after the answer arrived: this request still succeeds, the
+			// store finds the context ended when it comes back
+			late = callers[k]
+			p.late = true
+			late.cancel()
+		}
 		p.rel <- ans
-	}
-	// everything has returned (or is stuck, which the wait below turns into a verdict)
-	synctest.Wait()
-	if tickJoins > 0 {
-		select {
-		case <-r.tick.done:
-		default:
-			r.direct = "ticker poll that joined a Refresh did not complete"
+		if late != nil {
+			synctest.Wait()
+			var obs []string
+			select {
+			case err := <-late.ch:
+				late.done = true
+				obs = append(obs, c11Class(err))
+			default:
+			}
+			r.cancels++
+			// (cache writes are not collected here: if this was the last request the poll has
+			// completed meanwhile and its flush belongs to the end-of-poll event)
+			r.emit(true, fmt.Sprintf("C %d", hook.CA-1), obs)
 		}
 	}
+	// everything has returned (or is stuck)
+	synctest.Wait()
 	outs := r.writes()
-	strict := !bg && tickJoins == 0
-	ok := true
-	if !bg {
-		ok = leaderRes.err == nil
-		outs = append(outs, "os "+coqBool(ok))
-	}
-	for _, j := range joiners {
-		select {
-		case x := <-j:
-			outs = append(outs, "os "+coqBool(x.err == nil))
-			if bg {
-				ok = x.err == nil
+	ok, known := true, false
+	for _, c := range callers {
+		if c.tick {
+			select {
+			case <-r.tick.done:
+			default:
+				r.direct = "a ticker-driven Refresh did not complete"
 			}
+			continue
+		}
+		if c.done {
+			continue
+		}
+		select {
+		case err := <-c.ch:
+			c.done = true
+			outs = append(outs, c11Class(err))
+			ok, known = err == nil, true
 		default:
-			r.direct = "a coalesced Refresh did not return"
+			r.direct = "a Refresh call did not return although the poll is over"
 		}
 	}
 	if len(outs) > 0 && strings.HasPrefix(outs[0], "(ofl") {
 		r.installs++
 	}
-	if !bg || len(joiners) > 0 {
+	if known {
 		if ok {
 			r.pollsOK++
 		} else {
 			r.pollsFail++
 		}
 	}
+	strict := !hasTick
 	r.emit(strict, "E_", outs)
-	if strict {
+	if strict && known {
 		r.altIdx = len(r.steps) - 1
 		alt := append([]string(nil), outs...)
-		alt[len(alt)-1] = "os " + coqBool(strings.TrimPrefix(outs[len(outs)-1], "os ") != "true") // flip the last result
+		alt[len(alt)-1] = "os " + coqBool(outs[len(outs)-1] != "os true") // flip the last result
 		r.altTo = fmt.Sprintf("St (E_) %s", coqList(alt))
+	}
+	// contexts ending after the poll is over concern nobody
+	for _, c := range callers {
+		if !c.tick {
+			c.cancel()
+		}
+	}
+	if !bg {
+		r.emit(true, "C 0", r.writes())
 	}
 }
 
@@ -605,6 +662,9 @@ func c11Scenario(in c11Input) (rec Record) {
 	if r.joins > 0 {
 		rec.Tags = append(rec.Tags, "coalesced-refresh")
 	}
+	if r.cancels > 0 {
+		rec.Tags = append(rec.Tags, "context-cancelled")
+	}
 	if in.HasC {
 		rec.Tags = append(rec.Tags, "startup-cache")
 	}
@@ -692,8 +752,10 @@ func c11Hooks(rng *rand.Rand, nNames int, intensity int) []c11Hook {
 				hs[i].Pre = append(hs[i].Pre, c11Op{K: "read", N: rng.IntN(nNames)})
 			case x < 86:
 				hs[i].Pre = append(hs[i].Pre, c11Op{K: "lookup", N: rng.IntN(nNames), Fail: rng.IntN(5) == 0})
-			case x < 95:
+			case x < 92:
 				hs[i].Pre = append(hs[i].Pre, c11Op{K: "join"})
+			case x < 97:
+				hs[i].Pre = append(hs[i].Pre, c11Op{K: "cancel", N: rng.IntN(3)})
 			default:
 				hs[i].Pre = append(hs[i].Pre, c11Op{K: "jointick"})
 			}
@@ -703,6 +765,9 @@ func c11Hooks(rng *rand.Rand, nNames int, intensity int) []c11Hook {
 		}
 		if rng.IntN(100) < 8 {
 			hs[i].Full = true
+		}
+		if rng.IntN(100) < 5 {
+			hs[i].CA = 1 + rng.IntN(2)
 		}
 	}
 	return hs
@@ -805,6 +870,57 @@ func c11Systematic() []c11Input {
 	return out
 }
 
+// c11SystematicCancel: k declared secrets, all changed on the service; the LEADER's context ends
+// while the request at position p is held, with j callers having joined before (at position 0);
+// variants: a joiner's context ends instead / as well; then a clean poll (convergence).
+func c11SystematicCancel() []c11Input {
+	var out []c11Input
+	for k := 1; k <= 5; k++ {
+		for p := 0; p < k; p++ {
+			for j := 0; j <= 2; j++ {
+				for variant := 0; variant < 4; variant++ {
+					if (variant == 1 || variant == 2) && (j == 0 || p%2 == 1) {
+						continue
+					}
+					in := c11Input{Kind: "scn", NDecl: k, Allow: false}
+					for i := 0; i < k; i++ {
+						in.Names = append(in.Names, fmt.Sprintf("d%d", i))
+						in.Vers = append(in.Vers, 2)
+						in.Active = append(in.Active, 1)
+					}
+					for i := 0; i < k; i++ {
+						in.Ops = append(in.Ops, c11Op{K: "srv", N: i, Sub: "act", V: 1})
+					}
+					hs := make([]c11Hook, k)
+					for x := 0; x < j; x++ {
+						hs[0].Pre = append(hs[0].Pre, c11Op{K: "join"})
+					}
+					switch variant {
+					case 0: // the leader's context ends
+						hs[p].Pre = append(hs[p].Pre, c11Op{K: "cancel", N: 0})
+					case 1: // a joiner's context ends: the poll must go on and succeed for the others
+						hs[p].Pre = append(hs[p].Pre, c11Op{K: "cancel", N: 1})
+					case 2: // a joiner's, then the leader's
+						hs[p].Pre = append(hs[p].Pre, c11Op{K: "cancel", N: j}, c11Op{K: "cancel", N: 0})
+					case 3: // the leader's context ends right after the answer at position p arrived
+						hs[p].CA = 1
+					}
+					in.Ops = append(in.Ops, c11Op{K: "refresh", Hooks: hs})
+					for i := 0; i < k; i++ {
+						in.Ops = append(in.Ops, c11Op{K: "secret", N: i}, c11Op{K: "read", N: i})
+					}
+					in.Ops = append(in.Ops, c11Op{K: "refresh"})
+					for i := 0; i < k; i++ {
+						in.Ops = append(in.Ops, c11Op{K: "read", N: i})
+					}
+					out = append(out, in)
+				}
+			}
+		}
+	}
+	return out
+}
+
 func runC11(o Opts) {
 	out := NewOut(o.Out)
 	inTest(func(t *testing.T) {
@@ -840,6 +956,9 @@ func runC11(o Opts) {
 			runOne(in, "corpus")
 		}
 		for _, in := range c11Systematic() {
+			runOne(in, "")
+		}
+		for _, in := range c11SystematicCancel() {
 			runOne(in, "")
 		}
 		n := 300
